@@ -131,6 +131,9 @@ fn gp_points<const D: usize>(n: usize) -> Vec<[f64; D]> {
 
 fn main() {
     let args = parse_args();
+    if let Some(p) = &args.replay {
+        std::process::exit(vcore::replay::generic(p));
+    }
     silence_panics();
     let rep = Report::new("C04", &args);
     vcore::exact::self_check();
